@@ -159,6 +159,11 @@ func (unescapeMapping) Span(src []byte, atEOF bool) (n int, err error) {
 			return n, transform.ErrShortSrc
 		case len(src) - 2:
 			if atEOF || !ishex(src[n+1]) {
+				if !atEOF && src[n+1] == '\\' {
+					// The last byte is itself an escape char that may start an
+					// escape sequence continued in input we have not seen yet.
+					return n + 1, transform.ErrShortSrc
+				}
 				return len(src), nil
 			}
 			return n, transform.ErrShortSrc
@@ -200,11 +205,20 @@ func (t unescapeMapping) Transform(dst, src []byte, atEOF bool) (nDst, nSrc int,
 			return nDst, nSrc, transform.ErrShortSrc
 		case idx == len(src[nSrc:])-2:
 			if atEOF || !ishex(src[nSrc+idx+1]) {
-				n := copy(dst[nDst:], src[nSrc:])
+				end := len(src)
+				if !atEOF && src[nSrc+idx+1] == '\\' {
+					// The last byte is itself an escape char; whether it starts
+					// an escape sequence depends on input we have not seen yet.
+					end--
+				}
+				n := copy(dst[nDst:], src[nSrc:end])
 				nDst += n
 				nSrc += n
-				if nSrc < len(src) {
+				if nSrc < end {
 					return nDst, nSrc, transform.ErrShortDst
+				}
+				if end < len(src) {
+					return nDst, nSrc, transform.ErrShortSrc
 				}
 				return
 			}
